@@ -184,3 +184,39 @@ func stallScenario(rep *Report, r *rand.Rand) {
 		rep.nontrivial(fmt.Sprintf("stall/%d", n))
 	}
 }
+
+// stallScenario2: two writes to one page id in the writer's queue at the same time WITHOUT a rolled-back
+// transaction: a manual checkpoint copies the overwrite pages back onto the original page ids, the same
+// transaction then overwrites those pages again and commits (their new content goes straight to the original
+// ids). The writer goroutine is slowed down so that both writes land in one batch of more than 12 entries.
+func stallScenario2(rep *Report, r *rand.Rand) {
+	n := 14 + r.Intn(30)
+	cfg := engine.Config{PageSize: 1024, MaxSize: 0, InitMetaArea: uint32(r.Intn(2) * 8)}
+	ops := []engine.Op{{Kind: "begin"}, {Kind: "alloc", N: n}}
+	for i := 0; i < n; i++ {
+		ops = append(ops, engine.Op{Kind: "setfull", P: i, Seed: 100 + i})
+	}
+	ops = append(ops, engine.Op{Kind: "commit"}, engine.Op{Kind: "begin", WALLimit: 1000})
+	for i := 0; i < n; i++ {
+		ops = append(ops, engine.Op{Kind: "setfull", P: i, Seed: 3000 + i})
+	}
+	ops = append(ops, engine.Op{Kind: "commit"}, engine.Op{Kind: "begin", WALLimit: 1000}, engine.Op{Kind: "checkpoint"})
+	for i := 0; i < n; i++ {
+		if r.Intn(4) != 0 {
+			ops = append(ops, engine.Op{Kind: "setfull", P: i, Seed: 7000 + i})
+		}
+	}
+	ops = append(ops, engine.Op{Kind: "commit"}, engine.Op{Kind: "verify"}, engine.Op{Kind: "reopen"}, engine.Op{Kind: "verify"})
+	setup := func(e *engine.Engine) {
+		e.Disk.Hook = func(kind simdisk.OpKind, idx int) {
+			if kind == simdisk.OpWrite && idx%16 == 3 {
+				time.Sleep(2 * time.Millisecond)
+			}
+		}
+	}
+	e := runOracleHistory(rep, cfg, ops, int64(n), "stall2", setup, nil)
+	rep.count("stall-scenarios-checkpoint-then-overwrite", 1)
+	if e != nil {
+		rep.nontrivial(fmt.Sprintf("stall2/%d", n))
+	}
+}
